@@ -35,7 +35,7 @@ FAMILIES = {
              'non-trivial: an external await returns or hangs for an event that has a child'),
     'C04': dict(
         gens=[('core', dict(nb=(1, 3), proglen=(1, 6)), 0.4), ('core', dict(nb=(1, 2), proglen=(2, 6), p_timeout=0.5, nh=(2, 7)), 0.15),
-              ('chain', dict(), 0.15), ('chain', dict(p_timeout=1.0, p_await=0.95, min_depth=3, nb=(1, 1), maxh=(50,)), 0.3)],
+              ('chain', dict(), 0.15), ('chain', dict(p_timeout=1.0, p_await=0.95, min_depth=3, nb=(1, 1), maxh=(50,)), 0.2), ('deep', dict(), 0.1)],
         facets=CORE + ['await', 'signal', 'lock', 'results', 'lineage', 'timeout'],
         rule='handlers that dispatch to any bus and await with sleeps/yields before and during the await, nesting <= 4; '
              'non-trivial: an in-handler await occurs'),
@@ -58,8 +58,8 @@ FAMILIES = {
         rule='random forwarding digraphs (incl. self loops, several wildcard forwards per bus) with ordinary handlers and concurrent traffic; '
              'non-trivial: some forwarding handler dispatches'),
     'C08': dict(
-        gens=[('core', dict(nb=(2, 3), p_forward=0.35, p_wild=0.3), 0.5), ('core', dict(p_timeout=0.5, proglen=(1, 6)), 0.25),
-              ('chain', dict(p_timeout=0.8, p_await=0.6), 0.25)],
+        gens=[('core', dict(nb=(2, 3), p_forward=0.35, p_wild=0.3), 0.5), ('core', dict(p_timeout=0.5, proglen=(1, 6)), 0.2),
+              ('chain', dict(p_timeout=0.8, p_await=0.6), 0.2), ('deep', dict(), 0.1)],
         facets=CORE + ['results', 'signal', 'lineage', 'timeout'],
         rule='forwarding chains/diamonds with slow downstream handlers, external awaits; every state after first completion is an observation point; '
              'non-trivial: an event completes and at least 5 labels follow'),
